@@ -488,6 +488,9 @@ func allowedBytes(t *tamper, writes []int) int {
 	if t.Kind == "replay" {
 		upto = t.Frame - 1 // frame k itself is genuine, its copy is not
 	}
+	if t.Kind == "replay-far" {
+		upto = t.Frame + t.Dist - 2 // everything before the place the copy was put in is genuine
+	}
 	a := 0
 	for i := 0; i < len(chunks) && i < upto; i++ {
 		a += chunks[i]
@@ -517,6 +520,19 @@ func monitorTamper(o *rec) {
 		cs := append(tamperCases(rng, "ab", wAB, perClass), tamperCases(rng, "ba", wBA, perClass)...)
 		for _, tc := range cs {
 			jobs = append(jobs, job{s, wAB, wBA, tc, rng.Int63()})
+		}
+	}
+	// replay at a distance: a recorded data frame put in the place of a much later one (the
+	// nonce must never come back, whatever the distance; 128 and 256 are where a byte wraps)
+	{
+		rng := lib.Rand("c20-b-far", 0)
+		wAB, wBA := genShape(rng, 300), genShape(rng, 300)
+		for _, dir := range []string{"ab", "ba"} {
+			for _, k := range []int{2, 3 + rng.Intn(20)} {
+				for _, d := range []int{64, 127, 128, 129, 255, 256, 257} {
+					jobs = append(jobs, job{1000, wAB, wBA, tcase{dir, tamper{Kind: "replay-far", Frame: k, Dist: d}}, rng.Int63()})
+				}
+			}
 		}
 	}
 	lib.Parallel(len(jobs), 16, func(i int) {
